@@ -114,6 +114,7 @@ static std::string cfgstr(const Cfg &c) {
          ";ord=" + (c.ord ? "1" : "0");
 }
 
+static bool g_force_tids = false;  // interpret the prefix as thread ids (model -> implementation replay)
 static void child_body(const Cfg &c, vs_shared *shm, const std::vector<int> &choices, int horizon) {
   g_frames_in_file = c.F;
   // keep the library's chatter out of the way
@@ -126,7 +127,8 @@ static void child_body(const Cfg &c, vs_shared *shm, const std::vector<int> &cho
   for (auto &s : av) argv.push_back(const_cast<char *>(s.c_str()));
   App app;
   app.ordered = c.ord;
-  vs_begin(shm, choices.data(), (int)choices.size(), horizon);
+  if (g_force_tids) vs_begin_tids(shm, choices.data(), (int)choices.size(), horizon);
+  else vs_begin(shm, choices.data(), (int)choices.size(), horizon);
   int rc = app.Exec((int)argv.size(), argv.data());
   vs_log(EV_RC, rc, 0);
   vs_end();
@@ -233,9 +235,84 @@ static Verdict judge(const Cfg &c, const vsx::Exec &x) {
   return v;
 }
 
+// One execution as a line of model-level labels: the steps are (chosen thread, label of the op it resumes from),
+// the events the observable log.  Mutex ids are mapped to their role in the ring protocol.
+static std::string trace_line(const Cfg &c, const vsx::Exec &x) {
+  const vs_shared *shm = x.shm;
+  std::string s = "verdict=" + std::to_string(x.verdict) + "|steps=";
+  for (int i = 0; i < shm->npoints; i++) {
+    const vs_point &p = shm->points[i];
+    std::string lab = "?";
+    int t = p.chosen, o = p.chosen_obj;
+    switch (p.chosen_op) {
+      case VS_OP_START: lab = "START"; break;
+      case VS_OP_CREATE: lab = "CR"; break;
+      case VS_OP_JOIN: lab = o < 0 ? "JA" : "J"; break;
+      case VS_OP_YIELD:
+        if (o == 300 || o == 301) lab = std::string(t == 0 ? "MY" : "Y") + std::to_string(o);
+        else lab = "Y" + std::to_string(o);
+        break;
+      case VS_OP_LOCK:
+        if (c.ord) {
+          if (o < 2 * c.nt) lab = t == 0 ? "PL" : (o % 2 == 0 ? "L_IN" : "L_OUT");
+          else if (o == 2 * c.nt) lab = "L_RD";
+          else lab = "L?" + std::to_string(o);
+        } else lab = o == 0 ? "L_RD" : (o == 1 ? "ML" : "L?" + std::to_string(o));
+        break;
+      default: lab = "op" + std::to_string(p.chosen_op);
+    }
+    s += (i ? "," : "") + std::to_string(t) + ":" + lab;
+  }
+  s += "|events=";
+  bool first = true;
+  for (int i = 0; i < shm->nevents; i++) {
+    const vs_event &e = shm->events[i];
+    std::string ev;
+    if (e.kind == EV_READ_EXIT && e.a > 0) ev = "R" + std::to_string(e.a);
+    else if (e.kind == EV_EVAL_ENTER) ev = "E" + std::to_string(e.a) + ":" + std::to_string(e.b);
+    else if (e.kind == EV_MERGED) ev = "M" + std::to_string(e.b);
+    else if (e.kind == EV_FINAL) ev = "F" + std::to_string(e.a);
+    else continue;
+    s += (first ? "" : ",") + ev;
+    first = false;
+  }
+  s += "|msg=" + x.message;
+  return s;
+}
+
 int main(int argc, char **argv) {
   bsx::Args a = bsx::parse(argc, argv);
   int horizon = 3000;
+  if (a.kv.count("dump-traces") || a.kv.count("run-tids")) {
+    // model conformance support (lib/conform_c05.py)
+    bool forced = a.kv.count("run-tids") > 0;
+    auto m = bsx::kvs(forced ? a.kv["run-tids"] : a.kv["dump-traces"]);
+    Cfg c{atoi(m["nt"].c_str()), atoi(m["F"].c_str()), atoi(m["ff"].c_str()), atoi(m["N"].c_str()), m["ord"] == "1"};
+    FILE *out = fopen(a.kv["outfile"].c_str(), "w");
+    if (!out) return 2;
+    vsx::Explorer ex;
+    ex.horizon = horizon;
+    ex.body = [&](vs_shared *shm, const std::vector<int> &ch) { child_body(c, shm, ch, horizon); };
+    if (!forced) {
+      int bound = atoi(a.kv["bound"].c_str());
+      ex.dfs({}, 0, bound, [&](const vsx::Exec &x) { fprintf(out, "%s\n", trace_line(c, x).c_str()); return true; });
+    } else {
+      g_force_tids = true;
+      FILE *in = fopen(a.kv["tidsfile"].c_str(), "r");
+      if (!in) return 2;
+      char *line = nullptr;
+      size_t cap = 0;
+      while (getline(&line, &cap, in) > 0) {
+        std::string l(line);
+        while (!l.empty() && (l.back() == '\n' || l.back() == '\r')) l.pop_back();
+        vsx::Exec x = ex.run(vsx::parse_sched(l));
+        fprintf(out, "%s\n", trace_line(c, x).c_str());
+      }
+      fclose(in);
+    }
+    fclose(out);
+    return 0;
+  }
   if (a.has_case) {
     auto m = bsx::kvs(a.cas);
     Cfg c{atoi(m["nt"].c_str()), atoi(m["F"].c_str()), atoi(m["ff"].c_str()), atoi(m["N"].c_str()), m["ord"] == "1"};
